@@ -12,6 +12,13 @@ import RtenVerif.Lemmas.OnnxRefSqueeze
 import RtenVerif.Lemmas.OnnxRefTile
 import RtenVerif.Lemmas.OnnxRefCumSum
 import RtenVerif.Lemmas.OnnxRefPool
+import RtenVerif.Lemmas.OnnxRefSliceAxis
+import RtenVerif.Lemmas.OnnxRefArith
+import RtenVerif.Lemmas.OnnxRefSplit
+import RtenVerif.Lemmas.OnnxRefTopK
+import RtenVerif.Lemmas.OnnxRefIndexNorm
+import RtenVerif.Lemmas.OnnxRefTrilu
+import RtenVerif.Lemmas.OnnxRefSqueezeOp
 /-!
 # C15 — Operators conform to ONNX reference semantics (partial)
 
@@ -271,5 +278,138 @@ example : (match pool "max" ⟨[1, 1, 4], [3, 9, 2, 5]⟩ [2] [2] [1] [0, 0] fal
     | .ok t => (t.shape, t.data) | .error _ => ([], [])) = ([1, 1, 2], [9, 5]) := by decide
 example : (match pool "avg" ⟨[1, 1, 3], [1, 2, 4]⟩ [2] [1] [1] [0, 0] false "NOTSET" false 2 with
     | .ok t => (t.shape, t.data) | .error _ => ([], [])) = ([1, 1, 2], [3, 6]) := by decide
+
+/-! ## Laws on the functions where the ONNX index semantics live (audit round 1) -/
+
+/-- L25. `Slice`, positive step: `sliceAxis` (negative starts/ends counted from the end, clamping into
+`[0, dim]`, INT_MAX ends) selects exactly Python's `range(*slice(start, stop, step).indices(dim))`:
+every selected index `s + k·step`, `k < len`, lies in `[s, e) ⊆ [0, dim)` and `s + len·step` is the first
+index of the progression at or past the clamped end `e`. -/
+theorem c15_slice_axis_pos (dim : Nat) (start stop step : Int) (hd : dim ≠ 0) (hs : step > 0) :
+    let s := sliceStart dim start step
+    let e := sliceStop dim stop step
+    sliceAxis dim start stop step = (s, (sliceAxis dim start stop step).2) ∧
+    0 ≤ s ∧ s ≤ dim ∧ 0 ≤ e ∧ e ≤ dim ∧
+    (∀ k : Nat, k < (sliceAxis dim start stop step).2 → s ≤ s + k * step ∧ s + k * step < e) ∧
+    e ≤ s + ((sliceAxis dim start stop step).2 : Int) * step :=
+  sliceAxis_pos dim start stop step hd hs
+
+/-- L26. `Slice`, negative step: start clamped into `[0, dim-1]`, end into `[-1, dim-1]`; every selected
+index lies in `(e, s] ⊆ [0, dim)` and `s + len·step` is the first one at or below `e`. -/
+theorem c15_slice_axis_neg (dim : Nat) (start stop step : Int) (hd : dim ≠ 0) (hs : step < 0) :
+    let s := sliceStart dim start step
+    let e := sliceStop dim stop step
+    sliceAxis dim start stop step = (s, (sliceAxis dim start stop step).2) ∧
+    0 ≤ s ∧ s ≤ (dim : Int) - 1 ∧ -1 ≤ e ∧ e ≤ (dim : Int) - 1 ∧
+    (∀ k : Nat, k < (sliceAxis dim start stop step).2 → e < s + k * step ∧ s + k * step ≤ s) ∧
+    s + ((sliceAxis dim start stop step).2 : Int) * step ≤ e :=
+  sliceAxis_neg dim start stop step hd hs
+
+/-- L27. Exporter idioms: `end ≥ dim` (INT_MAX) with step 1 slices to the end of the axis; `start ≥ dim-1`,
+`end ≤ -dim-1` (INT_MIN) with step −1 reverses the whole axis. -/
+theorem c15_slice_axis_idioms (dim : Nat) (start stop : Int) (hd : dim ≠ 0) :
+    (0 ≤ start → start ≤ dim → (dim : Int) ≤ stop → sliceAxis dim start stop 1 = (start, (dim - start).toNat)) ∧
+    ((dim : Int) - 1 ≤ start → stop ≤ -(dim : Int) - 1 → sliceAxis dim start stop (-1) = ((dim : Int) - 1, dim)) :=
+  ⟨fun h0 h1 he => sliceAxis_to_end dim start stop hd h0 h1 he,
+   fun h0 he => sliceAxis_full_reverse dim start stop hd h0 he⟩
+
+example : sliceAxis 5 (-1) (-9223372036854775808) (-2) = (4, 3) := by decide
+example : sliceAxis 5 1 9223372036854775807 2 = (1, 2) := by decide
+example : sliceAxis 3 (-5) 5 (-1) = (0, 0) := by decide
+
+/-- L28. `Div` / `Mod(fmod=1)` is the C pair: `x = y·q + r`, `|r| < |y|`, `r` has the sign of the dividend
+(quotient truncated toward zero). -/
+theorem c15_div_fmod (x y : Int) (hy : y ≠ 0) :
+    x = y * divI x y + modI true x y ∧ (modI true x y).natAbs < y.natAbs ∧
+    (0 ≤ x → 0 ≤ modI true x y) ∧ (x ≤ 0 → modI true x y ≤ 0) := div_fmod_spec x y hy
+
+/-- L29. `Mod(fmod=0)` is Python `%`: `x = y·⌊x/y⌋ + r`, `|r| < |y|`, `r` has the sign of the divisor. -/
+theorem c15_mod (x y : Int) (hy : y ≠ 0) :
+    x = y * Int.fdiv x y + modI false x y ∧ (modI false x y).natAbs < y.natAbs ∧
+    (0 < y → 0 ≤ modI false x y) ∧ (y < 0 → modI false x y ≤ 0) := mod_spec x y hy
+
+example : divI (-7) 2 = -3 ∧ modI true (-7) 2 = -1 ∧ modI false (-7) 2 = 1 ∧ modI false 7 (-2) = -1 := by decide
+
+/-- L30. `Pow` with a non-negative integer exponent is repeated multiplication. -/
+theorem c15_pow (x : Int) (n : Nat) : powI x 0 = 1 ∧ powI x ((n : Int) + 1) = x * powI x n := pow_spec x n
+
+/-- L31. `Clip`: result within `[lo, hi]`, unchanged if already inside, absent bounds do not constrain. -/
+theorem c15_clip (lo hi v : Int) (h : lo ≤ hi) :
+    lo ≤ clipI (some lo) (some hi) v ∧ clipI (some lo) (some hi) v ≤ hi ∧
+    (lo ≤ v → v ≤ hi → clipI (some lo) (some hi) v = v) ∧
+    clipI none none v = v ∧ clipI (some lo) none v = max v lo ∧ clipI none (some hi) v = min v hi :=
+  clip_spec lo hi v h
+
+/-- L32. `Range(start, limit, delta)`: `max(⌈(limit − start)/delta⌉, 0)` elements `start + i·delta`, each
+strictly before `limit` in the direction of `delta`, and the next one is not. -/
+theorem c15_range (start limit delta : Int) (t : Tensor) (hd : delta ≠ 0)
+    (h : rangeOp start limit delta = .ok t) :
+    t.shape = [t.data.length] ∧
+    (∀ i : Nat, i < t.data.length → getI t.data i = start + i * delta ∧
+      (0 < delta → getI t.data i < limit) ∧ (delta < 0 → limit < getI t.data i)) ∧
+    (0 < delta → limit ≤ start + (t.data.length : Int) * delta) ∧
+    (delta < 0 → start + (t.data.length : Int) * delta ≤ limit) := range_spec start limit delta t hd h
+
+example : (match rangeOp 10 3 (-3) with | .ok t => t.data | .error _ => []) = [10, 7, 4] := by decide
+
+/-- L33. Index rule of Gather / GatherElements / GatherND / Scatter*: `normIndex dim i` accepts exactly
+`-dim ≤ i < dim` and returns `i`, or `i + dim` for negative `i`. -/
+theorem c15_norm_index (dim : Nat) (i : Int) (k : Nat) :
+    normIndex dim i = some k ↔
+      (-(dim : Int) ≤ i ∧ i < dim ∧ (k : Int) = if i < 0 then i + dim else i) := normIndex_spec dim i k
+
+/-- L34. Axis attributes (`axis`, `axes`): accepted exactly for `-rank ≤ a < rank`, negative counted from the back. -/
+theorem c15_norm_axis (rank : Nat) (a : Int) (k : Nat) :
+    normAxis rank a = .ok k ↔
+      (-(rank : Int) ≤ a ∧ a < rank ∧ (k : Int) = if a < 0 then a + rank else a) := normAxis_spec rank a k
+
+/-- L35. `Concat(Split(x, sizes)) = x` for ANY number of pieces whose sizes sum to the axis extent
+(n-way version of L6; `concat` folds `concat2` over the pieces exactly like this). -/
+theorem c15_concat_split_sizes (x : Tensor) (ax n : Nat) (ns : List Nat) (hwf : x.data.length = prod x.shape)
+    (hax : ax < x.shape.length) (hsum : n + ns.foldr (· + ·) 0 = getN x.shape ax) :
+    (splitSizes x ax ns n).foldl (concat2 ax) (narrow x ax 0 n) = x :=
+  concat_splitSizes x ax n ns hwf hax hsum
+
+/-- L36. TopK order: the lane is a permutation of the (value, index) pairs, sorted so that an earlier pair
+has a strictly better value than a later one, or the same value and a lower index. -/
+theorem c15_topk_order (largest : Bool) (l : List (Int × Nat)) :
+    (sortBy (topkBefore largest) l).Perm l ∧
+    (sortBy (topkBefore largest) l).Pairwise (fun a b =>
+      (if largest then a.1 > b.1 else a.1 < b.1) ∨ (a.1 = b.1 ∧ a.2 ≤ b.2)) := topk_order largest l
+
+example : sortBy (topkBefore true) [(3, 0), (1, 1), (3, 2), (9, 3)] = [(9, 3), (3, 0), (3, 2), (1, 1)] := by decide
+
+/-- L37. NonZero lists the non-zero positions in row-major order (strictly increasing linear offsets),
+exactly the valid indices whose element is non-zero. -/
+theorem c15_nonzero_order (x : Tensor) :
+    let hits := (allIdx x.shape).filter (fun idx => x.get idx != 0)
+    (hits.map (ravel x.shape)).Pairwise (· < ·) ∧
+    (∀ idx ∈ hits, validIdx x.shape idx = true ∧ x.get idx ≠ 0) ∧
+    (∀ idx, validIdx x.shape idx = true → x.get idx ≠ 0 → idx ∈ hits) := nonZero_order x
+
+/-- L38. Reduce with EXPLICIT axes (any order, positive or negative form) covering every axis = the fold
+of the row-major data, shape `[]` / `[1,…,1]` (keepdims), regardless of `noop_with_empty_axes`. -/
+theorem c15_reduce_explicit_full (f : List Int → Option Int) (x : Tensor) (axes : List Int) (ax : List Nat)
+    (v : Int) (keepdims noop : Bool)
+    (hwf : x.data.length = prod x.shape) (hf : f x.data = some v)
+    (hnorm : normAxes x.rank axes = .ok ax) (hne : ax ≠ [])
+    (hall : ∀ k, k < x.rank → ax.contains k = true) :
+    reduce f x (some axes) keepdims noop = .ok ⟨if keepdims then List.replicate x.rank 1 else [], [v]⟩ :=
+  reduce_explicit_full f x axes ax v keepdims noop hwf hf hnorm hne hall
+
+example : (match normAxes 2 [-1, 0] with | .ok a => a | .error _ => []) = [1, 0] := by decide
+
+/-- L39. Trilu: the upper triangle from diagonal `k` plus the lower triangle up to diagonal `k-1` is `x`. -/
+theorem c15_trilu_partition (x : Tensor) (k : Int) (hwf : x.data.length = prod x.shape) (hr : x.rank ≥ 2) :
+    (trilu x k true).bind (fun u => (trilu x (k - 1) false).bind (fun l => binop (· + ·) u l)) = .ok x :=
+  trilu_partition x k hwf hr
+
+/-- L40. On the operators themselves: if `Unsqueeze(x, axes)` succeeds (axes, possibly negative, normalise
+against the OUTPUT rank to distinct positions) then `Squeeze(·, axes)` of the result succeeds and returns `x`. -/
+theorem c15_squeeze_unsqueeze_op (x y : Tensor) (axes : List Int) (h : unsqueeze x axes = .ok y) :
+    squeeze y (some axes) = .ok x := squeeze_unsqueeze_op x y axes h
+
+example : (match unsqueeze ⟨[2, 3], [1, 2, 3, 4, 5, 6]⟩ [-1, 0] with | .ok t => t.shape | .error _ => []) = [1, 2, 3, 1] := by
+  decide
 
 end RtenVerif.OnnxRef
